@@ -988,8 +988,15 @@ def logb(x: Real, ctx: Context = REAL) -> Float:
     For non-zero arguments, `logb(x) = floor(log_{b}(abs(x)))`, where
     `b` is the base of the floating-point representation
     """
-    # TODO: compute `logb` for a non-dyadic fraction
-    x = _cvt_to_float(x)
+    t = _cvt_to_real(x)
+    if isinstance(t, Fraction):
+        # a non-dyadic rational (never zero): floor(log2(abs(t))), exactly
+        n, d = abs(t.numerator), t.denominator
+        e = n.bit_length() - d.bit_length()
+        if (n << max(-e, 0)) < (d << max(e, 0)):
+            e -= 1      # abs(t) < 2 ** e
+        return ctx.round(RealFloat.from_int(e))
+    x = t
     if x.is_nonzero():
         # finite, non-zero => floor(log2(abs(x)))
         return ctx.round(RealFloat.from_int(x.e))
